@@ -60,6 +60,18 @@ def split_records(trace, passno=1):
     return out
 
 
+def records_by_line(allrecs, texts):
+    """{line number: record}: the first record of that line number whose raw text is the physical line's text.
+    (The statement that starts a macro / REPT / IRP expansion is logged with the expansion already pushed, and
+    include files repeat line numbers, so the nesting depth alone does not identify the main file's lines.)"""
+    out = {}
+    for rc in allrecs:
+        ln = rc["line"]
+        if ln not in out and 1 <= ln <= len(texts) and rc["e"]["raw"] == texts[ln - 1] and "depth" in rc:
+            out[ln] = rc
+    return out
+
+
 def trace_event(rec, kind="SPLIT", orig=None):
     e = rec["e"]
     ev = {"a": kind, "raw": codes(e["raw"]), "p": params_codes(rec["p"]), "lab": codes(e["lab"]),
